@@ -47,7 +47,7 @@ theorem invoke_inc {P : Prog} {rank : Nat → Nat} {f : Nat} {B : List NodeId} (
 theorem unbusy {P : Prog} {s : Storage} {id : NodeId} {B : List NodeId} (h : INV P s (id :: B))
     (hstk : ∀ fr, fr ∈ s.stack → fr.id ∈ B)
     (hid : ∀ r, alookup s.derived id = some r → RevOk P s id r) : INV P s B := by
-  refine ⟨h.epochPos, hstk, h.srcTu, h.mapsInit, ?_, ?_, h.evalOk⟩
+  refine ⟨h.epochPos, hstk, h.srcTu, h.mapsInit, ?_, ?_⟩
   · intro n r hn hnB
     by_cases hni : n = id
     · subst hni; exact hid r hn
@@ -61,13 +61,45 @@ theorem revOk_of_run {P : Prog} {s3 : Storage} {id : NodeId} {v tuN : Nat} {R : 
     (hexact : ∀ d, d ∈ fr3.rdeps → ∃ rd, rd ∈ R ∧ rd.kind = d.node)
     (hstamps : ∀ d, d ∈ fr3.rdeps → d.stamp = s3.epoch) (htu : tuN ≤ s3.epoch)
     (horder : fr3.rdeps.reverse.map (·.node) = pushAll [] (R.map Read.kind))
+    (hsrcTu : ∀ k nd, alookup s3.srcs k = some nd → nd.tu ≤ s3.epoch) (hmaxE : fr3.maxTu ≤ s3.epoch)
     (sF : Storage) (he : sF.epoch = s3.epoch) (hs : sF.srcs = s3.srcs) (hm : sF.maps = s3.maps)
     (hd : ∀ q, q ≠ id → alookup sF.derived q = alookup s3.derived q)
     (hne : ∀ q w, Read.node q w ∈ R → q ≠ id) :
     RevOk P sF id (Rev.mk v tuN s3.epoch fr3.rdeps.reverse) := by
-  refine ⟨by rw [he]; exact Nat.le_refl _, htu, ?_, ?_, fun _ => ⟨R, by rw [hs, hm]; exact hbig⟩, ?_⟩
+  refine ⟨by rw [he]; exact Nat.le_refl _, htu, ?_, ?_, fun _ => ⟨R, by rw [hs, hm]; exact hbig⟩, ?_, ?_⟩
   · intro d hd'; rw [hstamps d (List.mem_reverse.1 hd')]; exact Nat.le_refl _
   · intro d hd'; rw [hstamps d (List.mem_reverse.1 hd')]; exact htu
+  · intro _ d hd'
+    have hdm := List.mem_reverse.1 hd'
+    obtain ⟨rd, hrd, hk⟩ := hexact d hdm
+    obtain ⟨hok, _⟩ := hreads rd hrd
+    unfold DepQuiet
+    rw [hstamps d hdm]
+    cases rd with
+    | src k o =>
+      simp only [ReadOk] at hok
+      simp only [Read.kind] at hk
+      by_cases ho : o.1.isSome = true
+      · rw [if_pos ho] at hok hk
+        rw [← hk]; simp only
+        obtain ⟨nd, hnd, _⟩ := hok.2
+        exact ⟨nd, by rw [hs]; exact hnd, hsrcTu k nd hnd⟩
+      · rw [if_neg ho] at hok hk
+        rw [← hk]; simp only
+        rw [hs]
+        cases hnd : alookup s3.srcs k with
+        | none => rfl
+        | some nd =>
+          have h1 := hok.1
+          rw [hok.2.1] at h1
+          have := keyObs_fst_some (m := s3.maps) hnd
+          rw [← h1] at this; cases this
+    | node q w =>
+      simp only [ReadOk] at hok
+      simp only [Read.kind] at hk
+      rw [← hk]; simp only
+      obtain ⟨rq, hq, _, htv, htuq⟩ := hok
+      exact ⟨rq, by rw [hd q (hne q w hrd)]; exact hq, Nat.le_trans htuq hmaxE, Or.inr (by rw [he]; exact htv)⟩
   · refine ⟨s3.srcs, s3.maps, R, hbig, ?_, fun d hd' => hexact d (List.mem_reverse.1 hd'), horder⟩
     intro rd hrd
     obtain ⟨hok, d, hdm, hk⟩ := hreads rd hrd
@@ -104,7 +136,7 @@ theorem install {P : Prog} {rank : Nat → Nat} {B : List NodeId} (hacy : Acycli
     (hreads : ∀ rd, rd ∈ R → ReadOk s3 fr3 rd ∧ ∃ d, d ∈ fr3.rdeps ∧ d.node = rd.kind)
     (hexact : ∀ d, d ∈ fr3.rdeps → ∃ rd, rd ∈ R ∧ rd.kind = d.node)
     (hstamps : ∀ d, d ∈ fr3.rdeps → d.stamp = s3.epoch) (htu : tuN ≤ s3.epoch)
-    (horder : fr3.rdeps.reverse.map (·.node) = pushAll [] (R.map Read.kind))
+    (horder : fr3.rdeps.reverse.map (·.node) = pushAll [] (R.map Read.kind)) (hmaxE : fr3.maxTu ≤ s3.epoch)
     (hold : ∀ rev, alookup s.derived id = some rev → rev.tv < s.epoch ∧
         ((v = rev.val ∧ tuN = rev.tu) ∨ (rev.deps ≠ [] ∧ rev.tv < tuN)))
     (he : sF.epoch = s3.epoch) (hs : sF.srcs = s3.srcs) (hm : sF.maps = s3.maps)
@@ -145,7 +177,7 @@ theorem install {P : Prog} {rank : Nat → Nat} {B : List NodeId} (hacy : Acycli
         · exact Nat.le_of_lt hb
         · exact absurd hb hqi
   refine ⟨?_, hevF⟩
-  refine ⟨by rw [he]; exact hinv3.epochPos, hstk, ?_, ?_, ?_, ?_, ?_⟩
+  refine ⟨by rw [he]; exact hinv3.epochPos, hstk, ?_, ?_, ?_, ?_⟩
   · intro k nd hk; rw [he]; rw [hs] at hk; exact hinv3.srcTu k nd hk
   · intro i hi; rw [hs] at hi; rw [hm]; exact hinv3.mapsInit i hi
   · intro n r hn hnB
@@ -188,9 +220,5 @@ theorem install {P : Prog} {rank : Nat → Nat} {B : List NodeId} (hacy : Acycli
     have hni : n ≠ id := fun e => hidB (e ▸ hnB)
     rw [hlk n hni] at hn; rw [he]
     exact hinv3.busyTv n r hn (List.mem_cons_of_mem _ hnB)
-  · intro n r hn
-    by_cases hni : n = id
-    · subst hni; exact ⟨v, R, by rw [hs, hm]; exact hbig⟩
-    · rw [hlk n hni] at hn; rw [hs, hm]; exact hinv3.evalOk n r hn
 
 end IsoVerif.Pico
